@@ -296,7 +296,7 @@ fn c01_between_cell_neighbours() {
     vcover!(!rel && acc & 0x3fff == 0 && i == 512, "witness: cell start");
 }
 
-// @family prop=C03 tprop=C01 name=c03_attack_slice macro=c03_attack_slice n=256 quick=0,128,255 seeded=1 thorough=all timeout=1500
+// @family prop=C03 tprop=C01 name=c03_attack_slice macro=c03_attack_slice n=256 quick=0,128,255 seeded=3 thorough=all timeout=1500
 // @about slice k = the 2^16 consecutive counter values [k*2^16,(k+1)*2^16) (4 table cells) of the ATTACK table, normalised segment (0 -> 1), acc symbolic in the slice: (a) |out(acc) - I(acc)| <= 2^-23 where I is the exact (f64) linear interpolant of the table with in-cell fraction low14/2^14 and the neighbour clamped at the last entry; (b) adjacent counter values: out never decreases and out(acc+1) - out(acc) <= steepest table step * 2^-14 + 2 ulp: interpolated, not a staircase. quick: first/middle/last slice + one VERIF_SEED-chosen; thorough: all 256 slices = all 2^24 counter values (measured: about 60 s per slice unshared)
 macro_rules! c03_attack_slice {
     ($name:ident, $k:expr) => {
@@ -307,7 +307,7 @@ macro_rules! c03_attack_slice {
     };
 }
 
-// @family prop=C03 tprop=C01 name=c03_release_slice macro=c03_release_slice n=256 quick=0,128,255 seeded=1 thorough=all timeout=1500
+// @family prop=C03 tprop=C01 name=c03_release_slice macro=c03_release_slice n=256 quick=0,128,255 seeded=3 thorough=all timeout=1500
 // @about as c03_attack_slice for the DECAY table (used by decay and release), normalised segment (1 -> 0): (a) output equals the exact interpolant within 2^-23; (b) adjacent counter values never increase and differ by <= steepest table step * 2^-14 + 2 ulp
 macro_rules! c03_release_slice {
     ($name:ident, $k:expr) => {
